@@ -37,9 +37,11 @@ def closure(n, adj):
         for u in range(n):
             m = reach[u]
             new = m
-            for v in range(n):
-                if m >> v & 1:
-                    new |= reach[v]
+            mm = m
+            while mm:
+                low = mm & -mm
+                new |= reach[low.bit_length() - 1]
+                mm ^= low
             if new != m:
                 reach[u] = new
                 changed = True
@@ -300,6 +302,42 @@ def _p7_chunk(params, lo, hi):
     return r
 
 
+def large_graphs():
+    """a few large structured graphs (sizes beyond 64 components and beyond 900 nodes on Tarjan's stack at once, the
+    thresholds at which word-sized masks and recursion guards start to matter); each as (name, n, adj)"""
+    out = []
+    for n in (66, 130):
+        adj = [[] for _ in range(n)]
+        adj[n - 1] = [v for v in range(0, n - 1, 64)]  # the last node points at nodes 0, 64, 128: components congruent mod 64
+        out.append((f"fan_from_last_n{n}", n, adj))
+        adj2 = [[(i + 1)] if i + 1 < n else [] for i in range(n)]
+        adj2[0] = [1, 65] if n > 65 else [1]
+        out.append((f"path_with_skip_n{n}", n, adj2))
+    for k in (3, 70, 950):
+        adj = [[] for _ in range(k + 1)]
+        adj[0] = list(range(1, k + 1))
+        for i in range(1, k + 1):
+            adj[i] = [0]
+        out.append((f"hub_with_{k}_two_cycles", k + 1, adj))
+    k = 920
+    adj = [[] for _ in range(k + 2)]
+    adj[0] = list(range(1, k + 1))
+    for i in range(1, k + 1):
+        adj[i] = [0] if i % 2 else [k + 1]
+    out.append((f"hub_with_{k}_mixed_spokes", k + 2, adj))
+    return out
+
+
+def _large_chunk(params, lo, hi):
+    gs = large_graphs()
+    r = new_result()
+    for idx in range(lo, hi):
+        name, n, adj = gs[idx // 2]
+        order = tuple(range(n)) if idx % 2 == 0 else tuple(range(n - 1, -1, -1))
+        run_graph(r, n, adj, order, True, edges_variants=False)
+    return r
+
+
 def _n5_block(params, lo, hi):
     off = params
     return _all_chunk((5, False, "two"), off + lo, off + hi)
@@ -314,6 +352,7 @@ def jobs(tier, seed):
     js.append(Job("n3_duplicate_neighbours", 40**3, _dup_chunk, None, describe="neighbour lists as arbitrary sequences (duplicates) of length <=3"))
     js.append(Job("outside_neighbours_u4", 2**16 * len(DECL), _outside_chunk, None, describe="4-node universe, declared node lists " + str(DECL)))
     js.append(Job("n7_subsets_of_declared_arcs", 2 ** len(P7) * 3 * 2, _p7_chunk, None, describe=f"7 nodes, every subset of {P7}, 3 node orders x 2 neighbour orders"))
+    js.append(Job("large_structured", len(large_graphs()) * 2, _large_chunk, None, chunk=1, describe="fans, skip paths and hubs with 66 to 950 nodes (more than 64 components; more than 900 nodes on the stack at once), two node orders"))
     total5 = 2**20 * 4
     if tier == "thorough":
         js.append(Job("n5_no_selfloops_2orders", total5, _all_chunk, (5, False, "two"), describe="all digraphs on 5 nodes without self loops, 2 node orders x 2 neighbour orders"))
